@@ -221,6 +221,11 @@ fn link_exact(r: &mut Rng, _i: u64) -> Vec<String> {
 fn link_burst(r: &mut Rng, _i: u64) -> Vec<String> {
     let c = gen_cfg(r);
     let mut l = vec!["mode monitor".to_string()];
+    // half of the runs with single-poll scheduling: operations and cancellations land between any two polls
+    let fine = r.bool();
+    if fine {
+        l.push("fine".into());
+    }
     l.extend(cfg_lines(&c));
     l.push("start".into());
     let nports = r.range(1, 3);
@@ -242,6 +247,16 @@ fn link_burst(r: &mut Rng, _i: u64) -> Vec<String> {
         let s = r.below(2) as usize;
         let (sn, rn) = if s == 0 { ("A", "B") } else { ("B", "A") };
         let (chunk, buf, maxdata) = (c.chunk[1 - s], c.buf[1 - s], c.maxdata[1 - s]);
+        if fine && r.chance(1, 2) {
+            l.push(format!("yield {}", r.range(1, 25)));
+            // drop a send wherever it happens to be
+            if r.chance(1, 4) && !live.is_empty() {
+                let idx = r.below(live.len() as u64) as usize;
+                let (id, sn, p) = live.remove(idx);
+                l.push(format!("cancel {id}"));
+                busy.remove(&(if sn == "A" { 0 } else { 1 }, p));
+            }
+        }
         match r.below(20) {
             0..=6 => {
                 if busy.contains(&(s, p)) {
